@@ -29,7 +29,7 @@ class C10(CheckBase):
     assumptions = ['a state that the consumer explicitly proposes with a non-associated value keeps that value (Dis is only '
                    'demanded for states the provider disassociates itself)']
     expected_probes = ['set_context_calls', 'set_location', 'assoc_changes', 'rejected_proposals', 'reassociations',
-                       'multi_state_calls']
+                       'multi_state_calls', 'background_commits']
     max_steps = 6_000_000
 
     def budget(self, tier):
@@ -49,11 +49,13 @@ class C10(CheckBase):
                                   'which': rng.choice(['new', 'new', 'existing', 'existing', 'associated', 'unknown']),
                                   'pick': rng.randrange(100), 'assoc': rng.choice(ASSOC), 'given': rng.choice(GIVEN)})
                 op['props'] = props
+            if k in ('setctx', 'both'):
+                op['bg'] = rng.random() < 0.5  # unrelated transactions are committed while the operation is handled
             if k in ('location', 'both'):
                 op['loc'] = {'fac': rng.choice(['f1', 'f2']), 'poc': rng.choice(['p1', 'p2', None]),
                              'bed': rng.choice(['b1', 'b 2', 'ä']), 'rm': rng.choice([None, 'r1'])}
             ops.append(op)
-        return {'sched': draw_sched_config(rng), 'world': cfg, 'ops': ops}
+        return {'sched': draw_sched_config(rng), 'world': cfg, 'ops': ops, 'stall_mdib_lock': rng.choice([0.0, 0.1, 0.3])}
 
     def body(self, ctx):
         plan = ctx.plan
@@ -117,7 +119,39 @@ class C10(CheckBase):
 
         hist.on_commit = on_commit
 
+        if plan.get('stall_mdib_lock'):
+            s.stall_before(w.mdib.mdib_lock, plan['stall_mdib_lock'], (0.002, 0.006))
+        num_handle = sorted(d.Handle for d in w.mdib.descriptions.objects if d.NODETYPE.localname == 'NumericMetricDescriptor')[0]
+
+        def bg_writer(stop):
+            from decimal import Decimal
+            n = 0
+            with worldb.node(worldb.PROVIDER_IP):
+                while not stop and n < 400:
+                    n += 1
+                    with w.mdib.metric_state_transaction() as mgr:
+                        st = mgr.get_state(num_handle)
+                        if st.MetricValue is None:
+                            st.mk_metric_value()
+                        st.MetricValue.Value = Decimal(n)
+                    ctx.probe('background_commits')
+                    s.sleep(0.003)
+
         def do_setctx(op):
+            stop = []
+            bg = None
+            if op.get('bg'):
+                bg = threading.Thread(target=bg_writer, args=(stop,), name='bgwriter')
+                bg.start()
+            try:
+                return do_setctx_(op)
+            finally:
+                stop.append(1)
+                if bg is not None:
+                    bg.join()
+                    w.settle(3.0)
+
+        def do_setctx_(op):
             ctx.probe('set_context_calls')
             states = []
             proposed_explicit.clear()
